@@ -88,3 +88,73 @@ func Slice(pc []*Term, seeds ...*Term) []*Term {
 	}
 	return out
 }
+
+// Subst replaces every occurrence of variable `from` by `to` in t.
+func Subst(t, from, to *Term) *Term {
+	memo := map[int]*Term{}
+	var rec func(x *Term) *Term
+	rec = func(x *Term) *Term {
+		if x == from {
+			return to
+		}
+		if len(x.Args) == 0 {
+			return x
+		}
+		if _, has := VarsOf(x)[from.ID]; !has {
+			return x
+		}
+		if r, ok := memo[x.ID]; ok {
+			return r
+		}
+		args := make([]*Term, len(x.Args))
+		for i, a := range x.Args {
+			args[i] = rec(a)
+		}
+		var r *Term
+		switch x.Op {
+		case OSum:
+			l := newLin()
+			l.c.Set(x.Rat)
+			for i, a := range args {
+				l.add(coerce(a, x.Sort), x.Coef[i])
+			}
+			r = l.build(x.Sort)
+		case OMul:
+			r = args[0]
+			for _, a := range args[1:] {
+				r = Mul(r, a)
+			}
+		case ODiv:
+			r = Div(args[0], args[1])
+		case OMod:
+			r = Mod(args[0], args[1])
+		case ORDiv:
+			r = RDiv(args[0], args[1])
+		case OToReal:
+			r = ToReal(args[0])
+		case OIte:
+			r = Ite(args[0], args[1], args[2])
+		case OEq:
+			r = Eq(args[0], args[1])
+		case OLe:
+			r = Le(args[0], args[1])
+		case OLt:
+			r = Lt(args[0], args[1])
+		case OAnd:
+			r = And(args...)
+		case OOr:
+			r = Or(args...)
+		case ONot:
+			r = Not(args[0])
+		case OApp:
+			r = App(x.Name, x.Sort, x.Lo, x.Hi, args...)
+		case OBitLen:
+			r = BitLen(args[0])
+		default:
+			panic("Subst: unhandled op")
+		}
+		memo[x.ID] = r
+		return r
+	}
+	return rec(t)
+}
